@@ -276,8 +276,24 @@ def run_batch(engine_name, focus, tier, seed, n_runs, workers=None, do_shrink=Tr
         with concurrent.futures.ProcessPoolExecutor(max_workers=workers, mp_context=mp,
                                                     initializer=_worker_init,
                                                     initargs=(engine_name,)) as ex:
-            for part in ex.map(_run_chunk_isolated, tasks):
-                results.extend(part)
+            if os.environ.get('VERIF_STOP_AFTER_NEW'):
+                # sensitivity mode only (never used by a registered check): stop dispatching once a chunk reported a
+                # violation that is not a known finding; the partial batch is enough to say "caught"
+                futs = [ex.submit(_run_chunk_isolated, t) for t in tasks]
+                for fu in concurrent.futures.as_completed(futs):
+                    part = fu.result()
+                    results.extend(part)
+                    if any(match_known(v, known_patterns) is None for r in part for v in r.get('violations', [])):
+                        for g in futs:
+                            g.cancel()
+                        break
+                for g in futs:
+                    if g.done() and not g.cancelled() and g.exception() is None and g.result() and \
+                            g.result()[0]['idx'] not in {r['idx'] for r in results}:
+                        results.extend(g.result())
+            else:
+                for part in ex.map(_run_chunk_isolated, tasks):
+                    results.extend(part)
         faulthandler.cancel_dump_traceback_later()
     wall = time.time() - t0
     results.sort(key=lambda r: r['idx'])
